@@ -79,6 +79,7 @@ type TermCtx struct {
 	fresh      map[string]int
 	Axioms     []*Term // facts about the initial heap, assumed in every obligation
 	bridgeSeen map[int]bool
+	bridgeKey  map[int]*Term // axiom term id -> the bridge term the axiom is about
 	selMemo    map[[2]int]*Term
 }
 
@@ -89,7 +90,7 @@ type UFDecl struct {
 }
 
 func NewTermCtx() *TermCtx {
-	return &TermCtx{tab: map[string]*Term{}, decls: map[string]*Term{}, ufs: map[string]*UFDecl{}, fresh: map[string]int{}, bridgeSeen: map[int]bool{}, selMemo: map[[2]int]*Term{}}
+	return &TermCtx{tab: map[string]*Term{}, decls: map[string]*Term{}, ufs: map[string]*UFDecl{}, fresh: map[string]int{}, bridgeSeen: map[int]bool{}, bridgeKey: map[int]*Term{}, selMemo: map[[2]int]*Term{}}
 }
 
 func (c *TermCtx) mk(t *Term) *Term {
@@ -542,9 +543,9 @@ func (c *TermCtx) bvCmp(op string, a, b *Term) *Term {
 		c.bridgeSeen[t.id] = true
 		na, nb := c.BV2Nat(a), c.BV2Nat(b)
 		if op == "bvult" {
-			c.Axioms = append(c.Axioms, c.Eq(t, c.ILt(na, nb)))
+			c.addBridge(t, c.Eq(t, c.ILt(na, nb)))
 		} else {
-			c.Axioms = append(c.Axioms, c.Eq(t, c.ILe(na, nb)))
+			c.addBridge(t, c.Eq(t, c.ILe(na, nb)))
 		}
 	}
 	if (op == "bvslt" || op == "bvsle") && !t.open && (a.Op == "int2bv" || b.Op == "int2bv") && !c.bridgeSeen[t.id] {
@@ -559,13 +560,72 @@ func (c *TermCtx) bvCmp(op string, a, b *Term) *Term {
 		}
 		sa, sb := sval(a), sval(b)
 		if op == "bvslt" {
-			c.Axioms = append(c.Axioms, c.Eq(t, c.ILt(sa, sb)))
+			c.addBridge(t, c.Eq(t, c.ILt(sa, sb)))
 		} else {
-			c.Axioms = append(c.Axioms, c.Eq(t, c.ILe(sa, sb)))
+			c.addBridge(t, c.Eq(t, c.ILe(sa, sb)))
 		}
 	}
 	return t
 }
+// addBridge records a bridge axiom (a fact about one bv2nat / int2bv / comparison term): it is
+// only relevant to queries in which that term occurs (relevantAxioms).
+func (c *TermCtx) addBridge(key *Term, ax ...*Term) {
+	for _, a := range ax {
+		c.bridgeKey[a.id] = key
+		c.Axioms = append(c.Axioms, a)
+	}
+}
+
+// relevantAxioms drops the bridge axioms whose term does not occur in the query (roots): the
+// context accumulates one per bridge term of the whole function, most of them about other paths.
+// Dropping assumptions is sound.
+func (c *TermCtx) relevantAxioms(roots []*Term) []*Term {
+	if len(c.bridgeKey) == 0 {
+		return c.Axioms
+	}
+	seen := map[int]bool{}
+	var walk func(t *Term)
+	walk = func(t *Term) {
+		if seen[t.id] {
+			return
+		}
+		seen[t.id] = true
+		for _, a := range t.Args {
+			walk(a)
+		}
+	}
+	for _, r := range roots {
+		if r != nil {
+			walk(r)
+		}
+	}
+	var out []*Term
+	pending := []*Term{}
+	for _, a := range c.Axioms {
+		if _, ok := c.bridgeKey[a.id]; !ok {
+			walk(a)
+			out = append(out, a)
+		} else {
+			pending = append(pending, a)
+		}
+	}
+	for changed := true; changed; {
+		changed = false
+		var rest []*Term
+		for _, a := range pending {
+			if seen[c.bridgeKey[a.id].id] {
+				walk(a)
+				out = append(out, a)
+				changed = true
+			} else {
+				rest = append(rest, a)
+			}
+		}
+		pending = rest
+	}
+	return out
+}
+
 func (c *TermCtx) BVUlt(a, b *Term) *Term { return c.bvCmp("bvult", a, b) }
 func (c *TermCtx) BVUle(a, b *Term) *Term { return c.bvCmp("bvule", a, b) }
 func (c *TermCtx) BVSlt(a, b *Term) *Term { return c.bvCmp("bvslt", a, b) }
@@ -747,7 +807,7 @@ func (c *TermCtx) BV2Nat(a *Term) *Term {
 	if !t.open && !c.bridgeSeen[t.id] {
 		// range fact for the bridge term (stated explicitly; solvers differ in how eagerly they derive it)
 		c.bridgeSeen[t.id] = true
-		c.Axioms = append(c.Axioms, c.ILe(c.Inti(0), t), c.ILt(t, c.Int(new(big.Int).Lsh(big.NewInt(1), uint(a.Sort.W)))))
+		c.addBridge(t, c.ILe(c.Inti(0), t), c.ILt(t, c.Int(new(big.Int).Lsh(big.NewInt(1), uint(a.Sort.W)))))
 	}
 	return t
 }
@@ -768,21 +828,21 @@ func (c *TermCtx) Int2BV(a *Term, w int) *Term {
 		c.bridgeSeen[t.id] = true
 		lim := c.Int(new(big.Int).Lsh(big.NewInt(1), uint(w)))
 		back := c.mk(&Term{Op: "bv2nat", Args: []*Term{t}, Sort: IntSort})
-		c.Axioms = append(c.Axioms, c.Implies(c.And(c.ILe(c.Inti(0), a), c.ILt(a, lim)), c.Eq(back, a)))
+		c.addBridge(t, c.Implies(c.And(c.ILe(c.Inti(0), a), c.ILt(a, lim)), c.Eq(back, a)))
 		// int2bv is a ring homomorphism modulo 2^w
 		if (a.Op == "+" || a.Op == "-") && len(a.Args) == 2 {
 			l, r := c.Int2BV(a.Args[0], w), c.Int2BV(a.Args[1], w)
 			if a.Op == "+" {
-				c.Axioms = append(c.Axioms, c.Eq(t, c.BVAdd(l, r)))
+				c.addBridge(t, c.Eq(t, c.BVAdd(l, r)))
 			} else {
-				c.Axioms = append(c.Axioms, c.Eq(t, c.BVSub(l, r)))
+				c.addBridge(t, c.Eq(t, c.BVSub(l, r)))
 			}
 		}
 		// small values have zero high bits
 		for _, k := range []int{8, 16, 32} {
 			if k < w {
 				small := c.Int(new(big.Int).Lsh(big.NewInt(1), uint(k)))
-				c.Axioms = append(c.Axioms, c.Implies(c.And(c.ILe(c.Inti(0), a), c.ILt(a, small)), c.Eq(c.Extract(w-1, k, t), c.BVu(0, w-k))))
+				c.addBridge(t, c.Implies(c.And(c.ILe(c.Inti(0), a), c.ILt(a, small)), c.Eq(c.Extract(w-1, k, t), c.BVu(0, w-k))))
 			}
 		}
 	}
